@@ -77,8 +77,9 @@ type Op struct {
 	// model does not follow it (used where the model cannot: after a request
 	// DynamoDB would have rejected was accepted, and for first pages whose only
 	// purpose is to obtain a LastEvaluatedKey).
-	Blind  bool `json:"blind,omitempty"`
-	Repeat bool `json:"repeat,omitempty"` // the driver sends the same request object twice and returns the second response
+	Blind      bool `json:"blind,omitempty"`
+	Consistent bool `json:"consistent,omitempty"` // ConsistentRead on Get / Query / Scan / BatchGet
+	Repeat     bool `json:"repeat,omitempty"`     // the driver sends the same request object twice and returns the second response
 }
 
 // Error classes.
@@ -932,9 +933,6 @@ func (t *Table) search(op Op, pr *parsedReq) Result {
 }
 
 func (db *DB) batchWrite(op Op) Result {
-	if db.Failure == "deprecated" {
-		return errRes(ErrForced, "forced failure")
-	}
 	n := 0
 	for _, tb := range op.Batch {
 		for _, r := range tb.Reqs {
@@ -952,6 +950,24 @@ func (db *DB) batchWrite(op Op) Result {
 	}
 	// validate everything first: a rejected batch applies nothing
 	invalid := func() *Result {
+		dup := false
+		seen := map[string]bool{}
+		for _, tb := range op.Batch {
+			if t, ok := db.Tables[tb.Table]; ok {
+				for _, r := range tb.Reqs {
+					it := r.Put
+					if it == nil {
+						it = r.Delete
+					}
+					if k, ok := t.KeyOf(it); ok {
+						if seen[tb.Table+"\x00"+k] {
+							dup = true
+						}
+						seen[tb.Table+"\x00"+k] = true
+					}
+				}
+			}
+		}
 		for _, tb := range op.Batch {
 			t, ok := db.Tables[tb.Table]
 			if !ok {
@@ -973,12 +989,21 @@ func (db *DB) batchWrite(op Op) Result {
 				}
 			}
 		}
+		if dup {
+			// DynamoDB rejects a batch that names one key twice; no listed property demands it
+			return &Result{Spec: true, WeakWhy: "the batch names one key twice"}
+		}
 		return nil
 	}()
+	if db.Failure != "" && invalid != nil {
+		// whether the request's own defect or the emulated failure is reported
+		// first is not decided by any listed property
+		return Result{Weak: true, WeakWhy: "malformed batch under emulated failure"}
+	}
+	if db.Failure == "deprecated" {
+		return errRes(ErrForced, "forced failure")
+	}
 	if db.Failure == "internal_server" {
-		if invalid != nil {
-			return Result{Weak: true, WeakWhy: "malformed batch under emulated failure"}
-		}
 		// every request is reported as unprocessed, nothing is applied
 		res := Result{}
 		for _, tb := range op.Batch {
